@@ -254,10 +254,17 @@ def measure(sc):
     out = collections.Counter()
     seen = set()
 
-    def walk(obj, path, depth):
-        if id(obj) in seen or depth > 5:
+    # breadth-first, so that every object is measured under its shortest path from a root (with a depth-first walk an object first met
+    # at the end of a long path - a Peer inside the routing table - was cut off by the depth limit and then skipped on the short one)
+    todo = collections.deque()
+
+    def push(obj, path, depth):
+        if id(obj) in seen or depth > 7:
             return
         seen.add(id(obj))
+        todo.append((obj, path, depth))
+
+    def visit(obj, path, depth):
         if isinstance(obj, CONTAINERS):
             if isinstance(obj, collections.deque) and obj.maxlen is not None:
                 out[path + "(bounded deque: capped)"] += min(len(obj), 0)
@@ -266,7 +273,7 @@ def measure(sc):
             items = obj.values() if isinstance(obj, dict) else obj
             for v in list(items):
                 if isinstance(v, CONTAINERS) or hasattr(v, "__dict__"):
-                    walk(v, path + "[]", depth + 1)
+                    push(v, path + "[]", depth + 1)
             return
         d = getattr(obj, "__dict__", None)
         if d is None:
@@ -281,10 +288,12 @@ def measure(sc):
                 out[f"{path}.{k}"] += len(v)
                 continue
             if isinstance(v, CONTAINERS) or hasattr(v, "__dict__"):
-                walk(v, f"{path}.{k}", depth + 1)
-    walk(node, "node", 0)
+                push(v, f"{path}.{k}", depth + 1)
+    push(node, "node", 0)
     for i, a in enumerate(nw.apps):
-        walk(a, f"app{i}", 0)
+        push(a, f"app{i}", 0)
+    while todo:
+        visit(*todo.popleft())
     out["live simulated threads"] = len(nw.world.live_threads())
     out["unclosed fake sockets"] = sum(1 for s in nw.world.socks if not s.closed)
     out["fake pipes"] = len(nw.world.pipes)
@@ -325,6 +334,164 @@ def run_sequence(names, reps, policy=None):
         return m, fails
     except sk.Livelock as e:
         return {"livelock": 1}, [("livelock", str(e))]
+    finally:
+        sc.close()
+
+
+# ------------------------------------------------------------------ E4: a handshake completing in the instant in which the connection fails
+SCHED_VARIANTS = ("cea-at-cea-timeout", "cer-at-cer-timeout")
+SCHED_CFG = {
+    "node": {"ips": ["10.0.0.1"], "tcp_port": 3868, "cer_timeout": 2, "cea_timeout": 2, "idle_timeout": 600, "dwa_timeout": 600, "wakeup": 6,
+             "retransmit_queue_size": 4},
+    "peers": [{"name": "peer1.example.org"}, {"name": "peer2.example.org"}],
+    "apps": [{"id": env.APP_ACCT, "acct": True, "peers": [0, 1], "behaviour": "answer"}],
+}
+
+
+def sched_execute(variant, prefix):
+    """The CEA / CER of a connection is handled by its reader thread in the very instant in which the I/O thread gives the connection up
+    (capabilities-exchange timeout, reset).  Every interleaving (bounded) at line granularity in the handlers and the close path; then
+    the application sends 1 and then 3 more requests towards that peer: whatever became of the connection, what the node retains must
+    not depend on the number of requests."""
+    import copy
+    from .. import scheddfs
+    import diameter.node.node as nn
+    import diameter.node.peer as pp
+    sk.install()
+    pts = {}
+    for name in ("receive_cer", "receive_cea", "_check_timers", "close_connection_socket", "remove_peer_connection", "_remove_peer_connection",
+                 "_flag_connection_as_ready", "_assign_peer_connection", "_is_registered_connection"):
+        if hasattr(nn.Node, name):
+            pts[sk.code_of(nn.Node, name)] = None
+    sk.set_line_points(pts)
+    ch = scheddfs.Chooser(prefix)
+    cfg = copy.deepcopy(SCHED_CFG)
+    start_plan = ["refused"]
+    if variant != "cer-at-cer-timeout":
+        cfg["peers"][0].update({"ips": ["10.1.0.1"], "persistent": True, "reconnect_wait": 600})
+        start_plan = ["ok"]
+    sc = scenario.Scenario(cfg, chooser=ch, max_socks=3, start_plan=start_plan, app_timeout=1)
+    try:
+        nw = sc.start()
+        if variant == "cer-at-cer-timeout":
+            sc.apply(("accept",))
+        s = sc.socks[0]
+        if variant != "cea-then-reset":
+            nw.world.jump(3)
+        nw.world.points_on = True
+        ch.window = True
+        if variant == "cea-then-reset":
+            nw.deliver(s.fs, sc.message(s, "cea_ok"), run=False)
+            s.env_closed = True
+            nw.reset(s.fs)
+            sc.sync()
+        else:
+            sc.apply(("m", 0, "cea_ok" if variant == "cea-at-cea-timeout" else "cer_p0"))
+        ch.window = False
+        nw.world.points_on = False
+        sc.apply(("tick", 7))
+
+        def one_request():
+            sc.apply(("send", 0, "own"))
+            # a peer that is still connected answers; then everything times out / winds down
+            for x in sc.socks:
+                if not x.fs.closed and not x.env_closed:
+                    sc.apply(("m", x.idx, "ans"))
+            sc.apply(("tick", 2))
+        one_request()
+        sc.apply(("tick", 6))
+        m1 = measure(sc)
+        for _ in range(3):
+            one_request()
+        sc.apply(("tick", 6))
+        m4 = measure(sc)
+        # (the per-request growth of Node._app_waiting_answer is a known finding of the repetition phase and is not re-judged here)
+        grown = tuple(sorted((k, m1.get(k, 0), m4.get(k, 0)) for k in set(m1) | set(m4) if m1.get(k, 0) != m4.get(k, 0) and "_app_waiting_answer" not in k))
+        obs = (variant, grown, s.fs.closed, tuple(r[2] for r in sc.send_results), tuple(nw.thread_failures()))
+        return obs, ch
+    finally:
+        sc.close()
+
+
+def sched_check(obs):
+    variant, grown, closed, results, fails = obs
+    return [(f"growth:{k}:per:request-after-handshake-racing-with-failure:{variant}:under-some-schedule",
+             f"{k} = {a} after 1 request, {b} after 4 (connection socket closed={closed}, send_request outcomes {results})") for k, a, b in grown]
+
+
+HANDOVER_VARIANTS = [(msg, fault) for msg in ("cea_ok", "cer_p0") for fault in ("eof", "clock")]
+
+
+def handover_execute(variant, k):
+    """The CEA / CER is being handled by the reader thread; at kernel step k of that handling (line granularity) the peer closes the
+    connection / the capabilities-exchange deadline passes, and the I/O thread reacts at once.  Then 1 + 3 requests, as above."""
+    import copy
+    from .. import handover
+    import diameter.node.node as nn
+    msg, fault = variant
+    sk.install()
+    pts = {}
+    for name in ("receive_cer", "receive_cea", "_flag_connection_as_ready", "_assign_peer_connection", "_is_registered_connection", "_receive_message"):
+        if hasattr(nn.Node, name):
+            pts[sk.code_of(nn.Node, name)] = None
+    sk.set_line_points(pts)
+    ch = handover.HandOverChooser("_handle_connections")
+    cfg = copy.deepcopy(SCHED_CFG)
+    start_plan = ["refused"]
+    if msg == "cea_ok":
+        cfg["peers"][0].update({"ips": ["10.1.0.1"], "persistent": True, "reconnect_wait": 600})
+        start_plan = ["ok"]
+    sc = scenario.Scenario(cfg, chooser=ch, max_socks=3, start_plan=start_plan, app_timeout=1)
+    try:
+        nw = sc.start()
+        if msg != "cea_ok":
+            sc.apply(("accept",))
+        s = sc.socks[0]
+        fired = []
+
+        def inject():
+            fired.append(1)
+            if fault == "eof":
+                s.env_closed = True
+                s.fs.eof = True
+                nw.world.obs("env_eof", s.fs.sid)
+            else:
+                nw.world.jump(3)
+            ch.active = True
+        base = nw.world.steps
+        if k is not None:
+            nw.world.step_hooks[base + k] = inject
+        nw.world.points_on = True
+        sc.apply(("m", 0, msg))
+        nw.world.points_on = False
+        steps = nw.world.steps - base
+        nw.world.step_hooks.clear()
+        ch.active = False
+        sc.apply(("tick", 7))
+
+        def one_request():
+            sc.apply(("send", 0, "own"))
+            for x in sc.socks:
+                if not x.fs.closed and not x.env_closed:
+                    sc.apply(("m", x.idx, "ans"))
+            sc.apply(("tick", 2))
+        one_request()
+        sc.apply(("tick", 6))
+        m1 = measure(sc)
+        for _ in range(3):
+            one_request()
+        sc.apply(("tick", 6))
+        m4 = measure(sc)
+        grown = tuple(sorted((key, m1.get(key, 0), m4.get(key, 0)) for key in set(m1) | set(m4)
+                             if m1.get(key, 0) != m4.get(key, 0) and "_app_waiting_answer" not in key))
+        vs = [(f"growth:{key}:per:request-after-handshake-interrupted-by-{fault}:{msg}",
+               f"{fault} at kernel step {k} of the handling of {msg}: {key} = {a} after 1 request, {b} after 4 (socket closed={s.fs.closed}, "
+               f"send_request outcomes {[r[2] for r in sc.send_results]})") for key, a, b in grown]
+        for f in nw.thread_failures():
+            vs.append((f"thread-died:after-handshake-interrupted-by-{fault}:{msg}", f"step {k}: {f}"))
+        return bool(fired), steps, vs
+    except sk.Livelock as e:
+        return True, 0, [("livelock:node-threads-never-reach-quiescence", f"{variant} step {k}: {e}")]
     finally:
         sc.close()
 
@@ -374,6 +541,26 @@ def run(tier):
                               {"cycles": list(names_), "lo": lo_, "hi": hi_, "policy": pol_}))
         for f in fails:
             rep.notes.append(f"simulated thread failed during {names_}: {f} (judged by C14, not here)")
+    import functools
+    from .. import scheddfs
+    bound = 2 if tier == "thorough" else 1
+    tasks = [(functools.partial(sched_execute, v), sched_check, bound) for v in SCHED_VARIANTS]
+    nsched = 0
+    for v, r in zip(SCHED_VARIANTS, (scheddfs.explore_many(tasks) if tier != "thorough" else scheddfs.explore_many_capped(tasks, 1, 600))):
+        nsched += r["executions"]
+        for (key, detail), choices in r["violations"]:
+            rep.add(Violation(key, f"[{v}, bound {bound}] choices {choices}: {detail}", {"sched": v, "choices": choices}))
+        rep.sample({"schedule_exploration": f"{v}: reader thread completing the handshake vs I/O thread giving the connection up, then 1 + 3 requests",
+                    "preemption_bound": bound, "bound_completed_without_cap": r.get("bound_completed", bound), "capped": r.get("capped", False),
+                    "executions": r["executions"], "distinct_outcomes": len(r["outcomes"]), "branching_points": r["max_points"]})
+    from .. import handover
+    for v in HANDOVER_VARIANTS:
+        n, pts, vs = handover.enumerate_points(functools.partial(handover_execute, v))
+        nsched += n
+        for (key, detail), k in vs:
+            rep.add(Violation(key, detail, {"handover": list(v), "step": k}))
+        rep.sample({"fault_at_every_step": f"{v[1]} at every kernel step of the handling of {v[0]}, I/O thread reacts at once; then 1 + 3 requests", "points": pts, "executions": n})
+    rep.cov["schedules"] = nsched
     rep.sample({"cycles": names})
     rep.sample({"example_measure_keys": sorted(run_sequence(("inbound-request-answered",), 1)[0])[:25]})
     rep.cov.update({"states": len(jobs) * 2, "transitions": total_cycles, "traces_validated_against_impl": len(jobs) * 2,
@@ -387,5 +574,13 @@ def run(tier):
 
 
 def replay(case):
+    if "handover" in case:
+        fired, steps, vs = handover_execute(tuple(case["handover"]), case["step"])
+        return [Violation(k, d) for k, d in vs]
+    if "sched" in case:
+        import functools
+        from .. import scheddfs
+        obs, ch = scheddfs.replay_choices(functools.partial(sched_execute, case["sched"]), case["choices"])
+        return [Violation(k, d) for k, d in sched_check(obs)]
     names, lo, hi, grown, fails, size, pol = work((tuple(case["cycles"]), case.get("lo", 2), case.get("hi", 5), case.get("policy")))
     return [Violation(f"growth:{k}:per:{names[-1]}", f"{a} -> {b}") for k, (a, b) in grown.items()]
